@@ -114,3 +114,24 @@ Example C02_preconditions_hold_somewhere :
    pre_extract [ mkNode 1 0 [] [] (KRegion 1 0 0 [5; 6; 7] 0 true);
                 mkNode 5 1 [6] [] (KOrig 1); mkNode 6 1 [6; 7] [6] (KOrig 1); mkNode 7 1 [] [] (KOrig 1) ] 1 [5] 6 = true)%Z.
 Proof. split; vm_compute; reflexivity. Qed.
+
+(* dominator fix-point (transformations.py: assert len(new_doms) < len(doms[n])): for ALL graphs and ANY
+   iteration order of the successor sets the work-list returns within the stated fuel - the assertion and
+   the key look-ups never fail (Model/DomWl.v line by line, Model/DomWlProof.v) *)
+From V Require Import Model.Queries Model.DomWl Model.DomWlProof.
+Theorem C02_dominator_worklist_total :
+  forall nodes preds succs B,
+    NoDup nodes ->
+    (forall n, In n nodes -> incl (preds n) nodes) ->
+    (forall n, In n nodes -> incl (succs n) nodes) ->
+    (forall n p, In n nodes -> In p nodes -> (In p (preds n) <-> In n (succs p))) ->
+    (forall n, (length (succs n) <= B)%nat) ->
+    forall fuel,
+      entries nodes preds <> [] ->
+      (mu nodes B (init_D nodes (entries nodes preds)) (init_stk nodes (entries nodes preds)) < fuel)%nat ->
+      exists D log, find_dominators nodes (entries nodes preds) preds succs fuel = WOk D log.
+Proof.
+  intros nodes preds succs B H1 H2 H3 H4 H5 fuel H6 H7.
+  destruct (find_dominators_correct nodes preds succs B H1 H2 H3 H4 H5 fuel H6 H7) as [D [lg [E _]]]. eauto.
+Qed.
+Print Assumptions C02_dominator_worklist_total.
